@@ -8,7 +8,7 @@ Stream components of the renderer (C02/C03), transliterated from
 
 numpy arrays of shape `(n, nchannels)` are lists of frames; the frame type `V` is generic
 (`RMod V`: addition, zero, scalar multiplication by a rational, channel-wise product).  The
-driver runs the models at `V = List Rat`-like vectors; the theorems are stated for any `V`
+driver runs the models at `V = Frame n` (vectors of `n` rationals); the theorems are stated for any `V`
 satisfying the module laws.  Core Lean only.
 -/
 namespace Earverif.Stream
@@ -23,11 +23,15 @@ instance : RMod Rat where
   smul := (· * ·)
   pmul := (· * ·)
 
-instance {n : Nat} : RMod (Vector Rat n) where
-  add := Vector.zipWith (· + ·)
-  zero := Vector.replicate n 0
-  smul c v := v.map (c * ·)
-  pmul := Vector.zipWith (· * ·)
+/-- A row of `n` exact samples (own type, so that `+`/`0` are the ones defined here). -/
+structure Frame (n : Nat) where
+  v : Vector Rat n
+
+instance {n : Nat} : RMod (Frame n) where
+  add a b := ⟨Vector.zipWith (· + ·) a.v b.v⟩
+  zero := ⟨Vector.replicate n 0⟩
+  smul c a := ⟨a.v.map (c * ·)⟩
+  pmul a b := ⟨Vector.zipWith (· * ·) a.v b.v⟩
 
 instance {V W : Type} [RMod V] [RMod W] : RMod (V × W) where
   add a b := (a.1 + b.1, a.2 + b.2)
